@@ -154,6 +154,15 @@ CHECKS = {
               'huge, tiny), periods 2..60, every source type.'),
         note='trusts the ~150 lines of plain-loop references in vf/checks/c15.py; conventions listed in the evidence assumptions',
         ref='DESIGN.md section 3 C15'),
+    'C11': dict(
+        technique='two-process differential monitor: probe call in a fresh process vs after a history of other / aborted calls (fault injection incl. sys.monitoring line failpoints)',
+        text=('Every probe is run in a fresh process and, in other processes, after histories of 1-4 earlier research.backtest calls '
+              'that vary exchange name, exchange type under the same name, leverage, mode, fee, balance, routes, warm-up, simulator, '
+              'or abort (hook exception, order rejection, line failpoint inside the simulator); result and full tracer log must be '
+              'equal, arguments unmodified, consecutive identical calls equal. The probe strategy also reads a warm-up dependent '
+              'indicator and the shared-vars store so that leaks of the configuration memo and of shared state are observable.'),
+        note='one process per history (ISOLATE); the harness clears no jesse state between calls of a history',
+        ref='DESIGN.md section 3 C11'),
 }
 
 NOT_YET = 'check under construction in this round (see DESIGN.md section 3); not claimed until it runs clean on the unchanged tree'
